@@ -49,7 +49,6 @@ class MultiFit(FitBase):
         self._fits = list(fit_list)  # will raise TypeError if fit_list is not iterable
         self._shared_error_dicts = dict()
         self._shared_error_nodes_initialized = False
-        self._min_x_error = None
         super(MultiFit, self).__init__(
             data=None,
             model_function=None,
@@ -219,7 +218,7 @@ class MultiFit(FitBase):
                         Function(func=_get_derivatives_func(_fit_i), name=_derivatives_name),
                         add_children=False,
                     )
-                    self._nexus.add_dependency(name=_derivatives_name, depends_on="parameter_values")
+                    self._nexus.add_dependency(name=_derivatives_name, depends_on=("parameter_values", _x_cov_mat_name))
                 else:
                     self._nexus.add(Parameter(np.zeros(_fit_i.data_size), name=_derivatives_name))
                     self._nexus.add(Parameter(np.zeros((_fit_i.data_size, _fit_i.data_size)), name=_x_cov_mat_name))
@@ -487,9 +486,15 @@ class MultiFit(FitBase):
         for _fit in self._fits:
             _fit._on_error_change()
 
+    @property
+    def _min_x_error(self):
+        """The smallest non-zero x uncertainty of the members taking part in the shared cost function (None if there is none).
+        Always taken from the current x covariance matrix: uncertainties can also be added to the member fits directly."""
+        if not self._shared_error_nodes_initialized:
+            return None
         _x_errors = np.sqrt(np.diag(self._nexus.get("x_cov_mat").value))
         _non_zero_x_errors = _x_errors[_x_errors > 0.0]
-        self._min_x_error = None if len(_non_zero_x_errors) == 0 else np.min(_non_zero_x_errors)
+        return None if len(_non_zero_x_errors) == 0 else np.min(_non_zero_x_errors)
 
     def _set_new_data(self, new_data):
         raise NotImplementedError()
